@@ -35,6 +35,10 @@ def kUuid : Str := "uuid".toList
 
 def sAtom (s : Str) : JV := .atom ('s' :: s)
 
+def optAtom : Option Str → JV
+  | none => .null
+  | some s => .atom s
+
 def refObj (r : JRef) : JV := .obj [(kEClass, sAtom r.cname), (kRef, sAtom r.tok)]
 
 /-- what one `_isset` entry contributes to the dictionary -/
@@ -46,7 +50,7 @@ def jSlot (mm : MMX) (o : Opts) (cls : Nat) (ks : List (Str × JV)) (e : Str × 
     match e.2 with
     | .none => if o.sd || fi.dflt.isSome then [(e.1, .null)] else []
     | .attr1 v => if !veq fi v || o.sd then [(e.1, .atom v)] else []
-    | .attrN vs => [(e.1, .arr (vs.map fun | none => JV.null | some s => .atom s))]
+    | .attrN vs => [(e.1, .arr (vs.map optAtom))]
     | .ref1 t => [(e.1, refObj t)]
     | .refN ts => [(e.1, .arr (ts.map refObj))]
     | .kids =>
@@ -101,9 +105,7 @@ def jEffSlot (fi : FInfo) (entries : List (Str × JV)) : Option (Option (Str × 
   match fi.kind with
   | .attr | .ref =>
     (match entries.lookup fi.name with
-     | none => some (some (fi.name, match fi.kind with
-        | .attr => if fi.many then .attrN [] else (match fi.dflt with | some d => .attr1 d | none => .none)
-        | _ => if fi.many then .refN [] else .none))
+     | none => some (some (fi.name, unsetSlot fi))
      | some v => (jSlotOf fi v).map fun s => some (fi.name, s))
   | _ => some none
 
